@@ -58,6 +58,7 @@ func HStableBody() {
 		return
 	}
 	vr.Cover("c12.body.reencoded")
+	vr.Output("c12.body.reencoding", b2) // translation validation of decoder + encoder on arbitrary accepted input
 	p2 := vNewPayload(kind)
 	err = p2.Unmarshal(b2)
 	vr.Assert("c12.redecode.ok", err == nil)
@@ -87,6 +88,7 @@ func HStableMessage() {
 		return
 	}
 	vr.Cover("c12.msg.reencoded")
+	vr.Output("c12.msg.reencoding", b2)
 	m2 := new(IKEMessage)
 	err = m2.Decode(b2)
 	vr.Assert("c12.redecode.ok", err == nil)
